@@ -531,6 +531,46 @@ fn export_kinds_by_use_positions(s: &mut Src) -> Vec<(String, String)> {
     vec![("entry.ts".to_string(), entry), ("a.ts".to_string(), a), ("b.ts".to_string(), b)]
 }
 
+/// mapped types whose body does something different for every key: a diagnostic that names the key, or a semantic
+/// computation over recursive types (which numbers the helper types it introduces).  The result must not depend on the
+/// order in which the keys happen to be visited.
+pub fn mapped_type_per_key(s: &mut Src) -> Vec<(String, String)> {
+    let mut keys: Vec<&str> = vec!["a", "b", "c", "d"];
+    let n = s.range(2, 4);
+    while keys.len() > n {
+        let i = s.below(keys.len());
+        keys.remove(i);
+    }
+    let r = s.below(keys.len());
+    keys.rotate_left(r);
+    let union = keys.iter().map(|k| format!("\"{}\"", k)).collect::<Vec<_>>().join(" | ");
+    let mut out = String::new();
+    out.push_str("type NodeA = { v: string; next: NodeA | null };\ntype NodeB = { l: NodeB | null; r: number };\ntype NodeC = [NodeC | null, boolean];\ntype NodeD = { [k: string]: NodeD } | null;\n");
+    out.push_str("type Src = { a: NodeA | null; b: NodeB | null; c: NodeC | null; d: NodeD | string };\n");
+    let body = match s.below(5) {
+        0 => {
+            // every key fails with its own message
+            let mut t = String::from("never");
+            for k in keys.iter().rev() {
+                t = format!("K extends \"{}\" ? Missing_{} : {}", k, k, t);
+            }
+            t
+        }
+        1 => "Exclude<Src[K], null>".to_string(),
+        2 => "Exclude<Src[K], null | string> | K".to_string(),
+        3 => "{ k: K; v: Exclude<Src[K], null> }".to_string(),
+        _ => "K extends \"a\" ? Exclude<Src[K], null> : Missing_other".to_string(),
+    };
+    out.push_str(&format!("type Keys = {};\ntype M = {{ [K in Keys]{}: {} }};\n", union, if s.chance(1, 4) { "?" } else { "" }, body));
+    if s.chance(1, 3) {
+        out.push_str(&format!("type M2 = {{ [K in {} | Keys]: Exclude<Src[K], null> }};\n", union));
+        out.push_str("parse.buildParsers<{ P0: M; P1: M2 }>();\n");
+    } else {
+        out.push_str("parse.buildParsers<{ P0: M }>();\n");
+    }
+    vec![("entry.ts".to_string(), out)]
+}
+
 /// the same type name declared in several files of a directory grid (a/x.ts, a/y.ts, b/x.ts, b/y.ts), generic or not,
 /// all reaching one buildParsers call: generated names have to stay distinct whatever the paths share
 fn same_name_in_directories(s: &mut Src) -> Vec<(String, String)> {
@@ -769,7 +809,7 @@ impl C04 {
             1 => vec!["int".into()],
             _ => crate::den::NUMBER_FORMATS.iter().map(|x| x.to_string()).chain(["age".to_string()]).collect(),
         };
-        let kind = s.weighted(&[4, 4, 2, 3, 1, 4, 2, 1, 3]);
+        let kind = s.weighted(&[4, 4, 2, 3, 1, 4, 2, 1, 3, 1]);
         let (files, kind_name): (Vec<(String, String)>, &str) = match kind {
             0 => (vec![("entry.ts".to_string(), wild_file(s, &["a", "b", "missing"], true))], "wild_single"),
             1 if !corp.is_empty() => {
@@ -794,6 +834,7 @@ impl C04 {
             6 => (cross_module_values(s), "cross_module_values"),
             7 => (same_name_in_directories(s), "same_name_in_directories"),
             8 => (export_kinds_by_use_positions(s), "export_kinds_by_use_positions"),
+            9 => (mapped_type_per_key(s), "mapped_type_per_key"),
             _ => {
                 let txt = if corp.is_empty() { String::new() } else { corp[s.below(corp.len())].clone() };
                 (vec![("entry.ts".to_string(), txt)], "corpus_verbatim")
